@@ -10,7 +10,7 @@ state of order len(ref).  N up to 200: ObsC13.tla.
 import numpy as np
 
 from .. import core, material as M, tlc, obs
-from ..kern_util import call_guard, cmp_vec, cmp_scalar, entry_variants
+from ..kern_util import call_guard, cmp_vec, cmp_scalar, entry_variants, live_object_dev
 
 CRITERIA = ('AIC', 'AICc', 'KIC', 'FPE', 'AKICc', 'MDL')
 
@@ -71,6 +71,12 @@ def replay_state(chk, st, cplx, table):
             if bad:
                 chk.violation('C13:pburg:%s:values%s' % (mode, ':sampling' if 'sampling' in kw else ''),
                               'pburg(x=%s, %d, %s): %s' % (xa.tolist(), q, kw, bad), {'x': xa, 'order': q, 'kw': kw})
+    if q >= 2:
+        ok, dev = call_guard(live_object_dev, lambda **kw: pburg(xa.copy(), **dict({'order': q, 'NFFT': 8}, **kw)),
+                             [('ar_order', q - 1, 'order'), ('NFFT', 9, 'NFFT'), ('sampling', 2.0, 'sampling'), ('ar_order', q, 'order')])
+        if not ok or (dev is not None and dev > 1e-7):
+            chk.violation('C13:pburg:%s:live-object' % mode, 'pburg after re-assigning ar_order / NFFT / sampling differs from a fresh object (%r)' % (dev,),
+                          {'x': xa, 'order': q})
     chk.replayed += 1
     chk.count('burg-' + mode, 'replayed')
     if q == 2 and len(st['x']) == 5:
